@@ -157,6 +157,8 @@ def _atoms_of(test):
                 rec(v)
         elif isinstance(e, ast.UnaryOp) and isinstance(e.op, ast.Not):
             rec(e.operand)
+        elif _is_bool_call(e):
+            rec(e.args[0])  # `bool(x)` in a truth context is x
         else:
             out.append(e)
 
@@ -164,7 +166,13 @@ def _atoms_of(test):
     return out
 
 
+def _is_bool_call(e) -> bool:
+    return isinstance(e, ast.Call) and isinstance(e.func, ast.Name) and e.func.id == "bool" and len(e.args) == 1 and not e.keywords
+
+
 def _eval(test, val):
+    if _is_bool_call(test):
+        return _eval(test.args[0], val)
     if isinstance(test, ast.BoolOp):
         vs = [_eval(v, val) for v in test.values]
         return all(vs) if isinstance(test.op, ast.And) else any(vs)
@@ -250,6 +258,12 @@ def _check_wrapper_guards(ctx, r, ws):
     jt = m.func("_decorator.jaxtyped")
     for w, impl in ws:
         ctx.saw(w)
+        if isinstance(w.node, ast.AsyncFunctionDef) or any(isinstance(y_, (ast.Yield, ast.YieldFrom)) for y_ in walk_scope(w.node)):
+            kind_ = "a coroutine function" if isinstance(w.node, ast.AsyncFunctionDef) else "a generator function"
+            ctx.bad("C19.1", w, w.node, f"the wrapper `{w.name}` is {kind_}: nothing in it -- the disable guard included -- runs when the decorated function is *called*, only when the result "
+                    "is first awaited / iterated; a call made while checking was switched off is type-checked if the switch is back on by then (and the other way round), unlike the plain "
+                    "function", construct=f"disable guard deferred: wrapper is {kind_}")
+            continue
         g = NoReturn(m).cfg(w)
         # nodes that do checking work
         work = []
@@ -357,8 +371,10 @@ CLASSES = [
     ('"true" (any case)', {"type": "str", "lower": "true", "mixed": True}),
     ("other string", {"type": "str", "lower": "<other>", "mixed": True}),
     ("non-bool non-str (int, None, ...)", {"type": "other"}),
+    ("the number 1 (int / float, not a bool)", {"type": "num", "value": 1}),
+    ("the number 0 (int / float, not a bool)", {"type": "num", "value": 0}),
 ]
-EXPECT = ["return:param", "return:param", "return:False", "return:False", "return:True", "return:True", "raise:ValueError", "raise:ValueError"]
+EXPECT = ["return:param", "return:param", "return:False", "return:False", "return:True", "return:True", "raise:ValueError", "raise:ValueError", "raise:ValueError", "raise:ValueError"]
 
 
 _CONST_TABLES: dict = {}  # name -> (elements / keys, {key: value} or None): module-level constant containers of the parser's module
@@ -391,7 +407,7 @@ def _atom_truth(e, cls, pname):
             elif nm == "str":
                 res = res or cls["type"] == "str"
             elif nm == "int":
-                res = res or cls["type"] == "bool"  # bool is an int; other ints are in 'other' (treated as not str/bool)
+                res = res or cls["type"] in ("bool", "num")  # bool is an int
             else:
                 return None
         return res
@@ -419,8 +435,9 @@ def _atom_truth(e, cls, pname):
             # `.lower()` on a non-str raises; plain `in` on non-str: compare by equality
             if lowered:
                 return "raise:AttributeError"
-            if cls["type"] == "bool":
-                res = any(c == cls["value"] and type(c) in (bool, int) for c in consts)
+            if cls["type"] in ("bool", "num"):
+                # Python compares numbers by value: `1 in (True, False)`, `1.0 == True`
+                res = any(type(c) in (bool, int, float) and c == cls["value"] for c in consts)
             else:
                 res = False
         else:
@@ -475,7 +492,7 @@ def _walk_tree(stmts, cls, pname, f):
             return f"raise:{nm}"
         elif isinstance(st, (ast.Expr, ast.Pass)) and (isinstance(st, ast.Pass) or isinstance(st.value, ast.Constant)):
             continue
-        elif isinstance(st, ast.Assign) and len(st.targets) == 1 and isinstance(st.targets[0], ast.Name) and st.targets[0].id != pname \
+        elif isinstance(st, ast.Assign) and len(st.targets) == 1 and isinstance(st.targets[0], ast.Name) and (st.targets[0].id != pname or cls["type"] == "str") \
                 and isinstance(st.value, ast.Call) and isinstance(st.value.func, ast.Attribute) and st.value.func.attr in ("lower", "casefold") \
                 and isinstance(st.value.func.value, ast.Name) and st.value.func.value.id == pname and not st.value.args and not st.value.keywords:
             # `lowered = value.lower()`: evaluated here (a non-string has no such method), then read through the name
